@@ -1,4 +1,4 @@
-\* repaired model: chain 0..10 (+3), Retained 0, one batch per block, min-age off, 4 operations, cancel/crash after any batch; exhaustive: 164 981 distinct states (528 004 generated), 7-20 s
+\* repaired model: chain 0..10 (+3), Retained 0, one batch per block, min-age off, 4 operations, cancel/crash after any batch, event-filter windows of 4 blocks; exhaustive: 261 021 distinct states (896 239 generated), 13-23 s on 4 workers
 CONSTANTS
   MaxH = 13
   InitH = 10
